@@ -353,6 +353,36 @@ def regenerate(repo: Path, out_dir: Path) -> dict:
 		sp.write_text(stext)
 	report['modules']['PySession'] = hashlib.sha1(stext.encode()).hexdigest()[:12]
 	report['functions'].append('db/sqla.py (structural facts)')
+	# --- src/gambit/results.py: the column table of the CSV exporter -----------------------------------------------------------
+	cols = None
+	try:
+		rtree = ast.parse((repo / 'src' / 'gambit' / 'results.py').read_text())
+		cls = next(st for st in rtree.body if isinstance(st, ast.ClassDef) and st.name == 'CSVResultsExporter')
+		tab = next(st for st in cls.body if isinstance(st, ast.Assign) and ast.unparse(st.targets[0]) == 'COLUMNS')
+		cols = [(e.elts[0].value, e.elts[1].value) for e in tab.value.elts]
+		if not all(isinstance(a_, str) and isinstance(b_, str) for a_, b_ in cols):
+			cols = None
+		hdr = next(m for m in cls.body if isinstance(m, ast.FunctionDef) and m.name == 'get_header')
+		row = next(m for m in cls.body if isinstance(m, ast.FunctionDef) and m.name == 'get_row')
+		hdr_ok = [ast.unparse(x) for x in _body(hdr)] == ['return [name for name, _ in self.COLUMNS]']
+		row_ok = [ast.unparse(x) for x in _body(row)] == ['return [getattr_nested(item, attrs, pass_none=True) for _, attrs in self.COLUMNS]']
+	except Exception:
+		cols, hdr_ok, row_ok = None, False, False
+	ctext = ('/-\nGENERATED by harness/pytrace.py from src/gambit/results.py — do not edit.\n'
+	         'Regenerated at the start of every check; `GambitV.Tie.PyCsvColumns` proves the table equal to the model\'s columns.\n-/\n'
+	         'namespace GambitV.Gen\n\n'
+	         '/-- `CSVResultsExporter.COLUMNS`: (column name, attribute path) -/\n'
+	         'def pyCsvColumns : List (String × String) :=\n  [' + ', '.join(f'({lean_str(a_)}, {lean_str(b_)})' for a_, b_ in (cols or [])) + ']\n'
+	         '/-- `get_header` returns the names of `COLUMNS`, `get_row` the value of `getattr_nested(item, path, pass_none=True)` for every column, in order -/\n'
+	         f'def pyCsvHeaderIsNames : Bool := {b(hdr_ok)}\n' f'def pyCsvRowIsPaths : Bool := {b(row_ok)}\n\nend GambitV.Gen\n')
+	cp = out_dir / 'PyCsvColumns.lean'
+	if not cp.exists() or cp.read_text() != ctext:
+		cp.write_text(ctext)
+	report['modules']['PyCsvColumns'] = hashlib.sha1(ctext.encode()).hexdigest()[:12]
+	report['functions'].append('results.py CSVResultsExporter.COLUMNS (table)')
+	if cols is None:
+		report['untranslatable'].append('results.py:CSVResultsExporter.COLUMNS: not a literal list of (name, path) string pairs')
+		report.setdefault('untranslatable_by_module', {}).setdefault('PyCsvColumns', []).append(report['untranslatable'][-1])
 	if report['untranslatable']:
 		report['untranslatable_by_module'] = {'PyHdf5': list(report['untranslatable'])}
 	return report
